@@ -36,7 +36,7 @@ func init() {
 		DoesNotCover: "CRC32 collision resistance; corruption of a block that is all zeros (documented sparse-block optimisation).",
 	}, runC23)
 	register("C24", propMeta{
-		Explanation:  "Obligations discharged by table extraction and constant evaluation: O1 the widths written by encoding.encode sum to sop.HandleSizeInBytes; O2 decode reads the same (field, width) sequence; O3 every field of sop.Handle appears exactly once in each; O4 each field's Go type has exactly the encoded width and both sides use the same byte order; O5 handlesPerBlock x HandleSizeInBytes + 4 <= blockSize; O6 the slot offset is (low % handlesPerBlock) x HandleSizeInBytes and the block offset a multiple of blockSize; O7 the checksum is placed by marshalData(buffer[:blockSize-4], buffer) in the last 4 bytes; O8 the block scan visits handlesPerBlock slots stepping by HandleSizeInBytes; O9 the handle bytes are copied into [offset, offset+HandleSizeInBytes); O10 decode assigns every field of the target on every success path, so the decoded handle does not depend on what the target held before.",
+		Explanation:  "Obligations discharged by table extraction and constant evaluation: O1 the widths written by encoding.encode sum to sop.HandleSizeInBytes; O2 decode reads the same (field, width) sequence; O3 every field of sop.Handle appears exactly once in each; O4 each field's Go type has exactly the encoded width and both sides use the same byte order; O5 handlesPerBlock x HandleSizeInBytes + 4 <= blockSize; O6 the slot offset is (low % handlesPerBlock) x HandleSizeInBytes and the block offset a multiple of blockSize; O7 the checksum is placed by marshalData(buffer[:blockSize-4], buffer) in the last 4 bytes; O8 the block scan visits handlesPerBlock slots stepping by HandleSizeInBytes; O9 the handle bytes are copied into [offset, offset+HandleSizeInBytes); O10 decode assigns every field of the target on every success path, so the decoded handle does not depend on what the target held before; O11 neither Marshal nor encode assigns a field of the handle being encoded.",
 		DoesNotCover: "Nothing about concurrency; the byte-level behaviour of encoding/binary and bytes.Buffer is trusted.",
 		Technique:    "static analysis: extraction of the encoder's and decoder's field/width tables from the syntax tree, agreement checks, and constant evaluation of the block layout arithmetic (go/types, go/constant)",
 	}, runC24)
@@ -806,6 +806,39 @@ func runC24(c *Ctx) {
 		}
 		c.Check(ne == 1 && nd == 1, o, "O3 field "+fld.Name()+" encoded and decoded exactly once", fld.Pos(), "once each", fmt.Sprintf("encoded %d times, decoded %d times", ne, nd), nil)
 		c.Check(sizes.Sizeof(fld.Type()) == wd, o, "O4 field "+fld.Name()+" width equals its type's size", fld.Pos(), fmt.Sprintf("%d bytes", wd), fmt.Sprintf("type %s is %d bytes, encoded in %d", fld.Type(), sizes.Sizeof(fld.Type()), wd), nil)
+	}
+	// O11: the codec is a pure projection: neither the wrappers (Marshal/Unmarshal) nor encode assign a field of the
+	// handle being encoded, and decode assigns fields only from bytes it read
+	{
+		for _, k := range []string{"encoding.HandleEncoder.Marshal", "encoding.encode"} {
+			fx := w.Fn(k)
+			c.Analysed(fx)
+			xinfo := fx.Pkg.TypesInfo
+			var writes []string
+			var pos token.Pos
+			ast.Inspect(fx.Body, func(x ast.Node) bool {
+				as, ok := x.(*ast.AssignStmt)
+				if !ok {
+					return true
+				}
+				for _, l := range as.Lhs {
+					if fv := fieldOfSelector(xinfo, l); fv != nil {
+						for i := 0; i < st.NumFields(); i++ {
+							if st.Field(i) == fv {
+								writes = append(writes, fv.Name())
+								pos = as.Pos()
+							}
+						}
+					}
+				}
+				return true
+			})
+			if pos == token.NoPos {
+				pos = fx.Decl.Pos()
+			}
+			c.Check(len(writes) == 0, o, "O11 "+shortKey(k)+" does not alter the handle it encodes", pos, "no assignment to a Handle field",
+				fmt.Sprintf("the encoder side assigns %v before writing the record: for the field combinations concerned the record decodes to a handle that differs from the one that was encoded (e.g. a timestamp normalised away - the work-in-progress mark of a handle deleted by an in-flight transaction is lost once it is read back from disk)", writes), nil)
+		}
 	}
 	// O10: decode determines every field from the record alone: each field is assigned on every path to the
 	// success return (a field set only under a condition keeps whatever the target held before)
